@@ -9,7 +9,7 @@ from . import c09
 ID = "C10"
 RULE = ("streams as for C09 (tails without keysound index) x same-beat modes x join on/off x 3x3 orphan policies of group_notes x 3 policies of "
         "ungroup_notes: exhaustive on 2 columns x 2 rows (quick) / 3 rows (thorough); random beyond, a third of them well-formed dense streams on 3..6 columns (every head "
-        "closed, tails sharing their beat with notes either side); hand-built grouped sequences with a note inside one "
+        "closed, tails sharing their beat with notes either side); hand-built grouped sequences with a note of any type (stray tails and heads too) inside one "
         "or several open holds; every corpus chart; non-trivial = >= 2 notes")
 assumptions = c09.assumptions + ["no two pending tails share a position (never produced by group_notes; hand-built cases avoid it), so heap order = sorted order"]
 extra_trusted = []
